@@ -219,7 +219,24 @@ def gen_x5(thorough):
             yield 'X5:' + ','.join(str(i) for i in tup), '\n'.join(sub[i] for i in tup) + '\n'
 
 
-FAMILIES = {'x1': gen_x1, 'x1s': gen_x1_short, 'x2': gen_x2, 'x3': gen_x3, 'x4': gen_x4, 'x5': gen_x5}
+X5_PRESTATES = [
+    # values that were themselves produced by += / + / method calls (most aliasing defects need a non-initial state)
+    "a = [1]\na += [0]\nb = [2]\nb += [0]\n",
+    "a = {'k': 1}\na += {'j': 2}\nb = 'x'\nb += 'y'\n",
+]
+
+
+def gen_x5s(thorough):
+    tl = X5_TEMPLATES
+    for pi, pre in enumerate(X5_PRESTATES):
+        for k in range(1, 4):
+            for tup in itertools.product(range(len(tl)), repeat=k):
+                if k == 3 and pi == 1 and not thorough:
+                    continue
+                yield 'X5s%d:' % pi + ','.join(str(i) for i in tup), pre + '\n'.join(tl[i] for i in tup) + '\n'
+
+
+FAMILIES = {'x1': gen_x1, 'x1s': gen_x1_short, 'x2': gen_x2, 'x3': gen_x3, 'x4': gen_x4, 'x5': gen_x5, 'x5s': gen_x5s}
 
 # ------------------------------------------------------------------------------------------------------------
 _pool = None
@@ -269,11 +286,17 @@ def judge(text, pool=None):
         return 'unspec', str(e)
     except Fail as e:
         ref = ('fail', str(e))
-    real = pool.run(text)
+    try:
+        real = pool.run(text)
+    except RecursionError:
+        return 'value', 'the program built a self-referential value (only possible when an operation mutates a shared object in place)'
     if real[0] == 'internal':
         return 'internal', real[1]
     if ref[0] == 'ok' and real[0] == 'ok':
-        rc = real_canon(real[1])
+        try:
+            rc = real_canon(real[1])
+        except RecursionError:
+            return 'value', 'the program built a self-referential value (only possible when an operation mutates a shared object in place)'
         if rc == ref[1]:
             return 'ok', 'value'
         return 'value', 'reference %r, meson %r' % (ref[1], rc)
@@ -362,9 +385,10 @@ def work(job):
             if d == 'value':
                 if sample is None:
                     sample = text
-                succ.append(text)
+                if fam != 'x5s' or ',' not in cls:
+                    succ.append(text)     # (of the non-initial-state family only the one-statement programs go end-to-end)
             else:
-                failreps.setdefault((cls if fam != 'x5' else 'X5', _fail_reason(text)), text)
+                failreps.setdefault((cls if not fam.startswith('x5') else fam.upper(), _fail_reason(text)), text)
         elif v == 'unspec':
             stats['unspec'] += 1
             r = 'unspec:' + d.split('(')[0].strip()[:60]
@@ -488,7 +512,7 @@ def tier_b(ck, succ_all, fail_all):
         n += 1
         name = 'p%d' % n
         items.append((name, 'ok', {'meson.build': "project('%s')\n%s" % (name, text)}, expect, text))
-        if fam == 'x5':
+        if fam == 'x5' or (fam == 'x5s' and n % 7 == 0):
             for sp_i, pt in enumerate(split_points(text)):
                 lines = text.split('\n')
                 head, tail = '\n'.join(lines[:pt]) + '\n', '\n'.join(lines[pt:])
@@ -598,7 +622,7 @@ def main():
         sys.exit(0 if v in ('ok', 'unspec') else 1)
     fams = [f for f in FAMILIES if ck.want(f)]
     jobs = []
-    nsh = {'x1': 4 * NCPU, 'x1s': NCPU, 'x2': NCPU, 'x3': NCPU, 'x4': NCPU, 'x5': 2 * NCPU}
+    nsh = {'x1': 4 * NCPU, 'x1s': NCPU, 'x2': NCPU, 'x3': NCPU, 'x4': NCPU, 'x5': 2 * NCPU, 'x5s': 2 * NCPU}
     for f in fams:
         for s in range(nsh[f]):
             jobs.append((f, s, nsh[f], ck.thorough))
